@@ -90,13 +90,21 @@ theorem encC_collapse (H : Bytes → Bytes) (t : Node) :
 
 /-! ### the node database under the no-collision hypothesis -/
 
-/-- **no collision among nodes**: two minimal-form nodes whose encodings hash alike collapse alike -/
-def NoColl (H : Bytes → Bytes) : Prop :=
-  ∀ a b, WF a → WF b → H (enc H a) = H (enc H b) → collapse H a = collapse H b
+/-- **no collision among the nodes of the universe `U`** (the nodes that occur in the history under
+    consideration — a finite set; a global version would be unsatisfiable for a 32-byte hash):
+    two minimal-form nodes of `U` whose encodings hash alike collapse alike -/
+def NoColl (H : Bytes → Bytes) (U : Node → Prop) : Prop :=
+  ∀ a b, U a → U b → WF a → WF b → H (enc H a) = H (enc H b) → collapse H a = collapse H b
 
-/-- whatever the store holds under the hash of a node is that node's collapsed form -/
-def StoreSound (H : Bytes → Bytes) (st : Store) : Prop :=
-  ∀ h c, st.lookup h = some c → ∀ t, WF t → h = H (enc H t) → c = collapse H t
+/-- whatever the store holds under the hash of a node of `U` is that node's collapsed form -/
+def StoreSound (H : Bytes → Bytes) (U : Node → Prop) (st : Store) : Prop :=
+  ∀ h c, st.lookup h = some c → ∀ t, U t → WF t → h = H (enc H t) → c = collapse H t
+
+/-- the universe contains the children of its members -/
+def ClosedU (U : Node → Prop) : Prop :=
+  (∀ k v, U (.short k v) → U v) ∧ (∀ cs, U (.full cs) → ∀ c ∈ cs, U c)
+
+variable {U : Node → Prop}
 
 theorem lookup_append_of_none {st : Store} {h : Bytes} (hn : st.lookup h = none) (x : Bytes) (c : CNode) :
     (st ++ [(h, c)]).lookup x = if x = h then some c else st.lookup x := by
@@ -121,14 +129,14 @@ theorem dbInsert_extends (st : Store) (h : Bytes) (c : CNode) : Extends st (dbIn
     · subst hx; rw [hn'] at hxy; cases hxy
     · simp [hx, hxy]
 
-theorem dbInsert_lookup {H : Bytes → Bytes} {st : Store} (hs : StoreSound H st) {t : Node} (hwf : WF t) :
+theorem dbInsert_lookup {H : Bytes → Bytes} {st : Store} (hs : StoreSound H U st) {t : Node} (hU : U t) (hwf : WF t) :
     (dbInsert st (H (enc H t)) (collapse H t)).lookup (H (enc H t)) = some (collapse H t) := by
   unfold dbInsert
   split
   · rename_i hsome
     cases hl : st.lookup (H (enc H t)) with
     | none => simp [hl] at hsome
-    | some c => rw [hs _ _ hl t hwf rfl]
+    | some c => rw [hs _ _ hl t hU hwf rfl]
   · rename_i hn
     have hn' : st.lookup (H (enc H t)) = none := by
       cases hl : st.lookup (H (enc H t)) with
@@ -136,12 +144,12 @@ theorem dbInsert_lookup {H : Bytes → Bytes} {st : Store} (hs : StoreSound H st
       | some c => simp [hl] at hn
     rw [lookup_append_of_none hn']; simp
 
-theorem dbInsert_sound {H : Bytes → Bytes} (hnc : NoColl H) {st : Store} (hs : StoreSound H st) {t : Node} (hwf : WF t) :
-    StoreSound H (dbInsert st (H (enc H t)) (collapse H t)) := by
-  intro h c hl t' hwf' hh
+theorem dbInsert_sound {H : Bytes → Bytes} (hnc : NoColl H U) {st : Store} (hs : StoreSound H U st) {t : Node} (hU : U t) (hwf : WF t) :
+    StoreSound H U (dbInsert st (H (enc H t)) (collapse H t)) := by
+  intro h c hl t' hU' hwf' hh
   unfold dbInsert at hl
   split at hl
-  · exact hs h c hl t' hwf' hh
+  · exact hs h c hl t' hU' hwf' hh
   · rename_i hn
     have hn' : st.lookup (H (enc H t)) = none := by
       cases hl : st.lookup (H (enc H t)) with
@@ -151,9 +159,9 @@ theorem dbInsert_sound {H : Bytes → Bytes} (hnc : NoColl H) {st : Store} (hs :
     by_cases hx : h = H (enc H t)
     · simp only [hx, if_true, Option.some.injEq] at hl
       rw [← hl]
-      exact hnc t t' hwf hwf' (hx ▸ hh)
+      exact hnc t t' hU hU' hwf hwf' (hx ▸ hh)
     · simp only [hx, if_false] at hl
-      exact hs h c hl t' hwf' hh
+      exact hs h c hl t' hU' hwf' hh
 
 
 
@@ -192,13 +200,13 @@ theorem stored_iff (H : Bytes → Bytes) (st : Store) (t : Node) (hwf : WF t) :
         · simp at he
       · exact h2 e he
 
-theorem store_step {H : Bytes → Bytes} (hnc : NoColl H) {t : Node} (hwf : WF t) (child withDb : Bool) (fl : Flag)
-    {st0 st1 : Store} (hext : Extends st0 st1) (hfl : FlagOK H st0 child fl t) (hs : StoreSound H st1)
+theorem store_step {H : Bytes → Bytes} (hnc : NoColl H U) {t : Node} (hU : U t) (hwf : WF t) (child withDb : Bool) (fl : Flag)
+    {st0 st1 : Store} (hext : Extends st0 st1) (hfl : FlagOK H st0 child fl t) (hs : StoreSound H U st1)
     (hnodb : withDb = false → fl.hash = none)
     (hk : withDb = true → ∀ e ∈ kidsStore H t, st1.lookup e.1 = some e.2) :
     let s := storeL H withDb (!child) fl.hash (collapse H t) st1
     s.1 = (if child then refOf H t else .hashRef (H (enc H t))) ∧
-    Extends st1 s.2.2 ∧ StoreSound H s.2.2 ∧ (withDb = false → s.2.2 = st1) ∧
+    Extends st1 s.2.2 ∧ StoreSound H U s.2.2 ∧ (withDb = false → s.2.2 = st1) ∧
     FlagOK H s.2.2 child (hashedFlag withDb fl s.2.1) t ∧
     (withDb = true → Stored H s.2.2 t ∧ (child = false → s.2.2.lookup (H (enc H t)) = some (collapse H t))) := by
   have henc := (encC_collapse H t hwf).1
@@ -256,10 +264,10 @@ theorem store_step {H : Bytes → Bytes} (hnc : NoColl H) {t : Node} (hwf : WF t
     | true =>
       simp only [if_true]
       have hext2 := dbInsert_extends st1 (H (enc H t)) (collapse H t)
-      have hlk := dbInsert_lookup hs hwf
+      have hlk := dbInsert_lookup hs hU hwf
       have hst : Stored H (dbInsert st1 (H (enc H t)) (collapse H t)) t :=
         (stored_iff H _ t hwf).mpr ⟨fun _ => hlk, fun e he => hext2 _ _ (hk hw e he)⟩
-      refine ⟨hC1, hext2, dbInsert_sound hnc hs hwf, (by simp), ?_, fun _ => ⟨hst, fun _ => hlk⟩⟩
+      refine ⟨hC1, hext2, dbInsert_sound hnc hs hU hwf, (by simp), ?_, fun _ => ⟨hst, fun _ => hlk⟩⟩
       refine ⟨fun x hx => ?_, fun _ => ⟨hst, ?_⟩⟩
       · simp only [hashedFlag, Option.some.injEq] at hx
         subst hx; exact ⟨rfl, hbig⟩
@@ -270,9 +278,9 @@ theorem store_step {H : Bytes → Bytes} (hnc : NoColl H) {t : Node} (hwf : WF t
 /-! ### `hasher.hash` on a live trie -/
 
 /-- what one call of `hasher.hash` on the live node for `t` must deliver -/
-def HashSpec (H : Bytes → Bytes) (st : Store) (withDb child : Bool) (t : Node) (r : CNode × LNode × Store) : Prop :=
+def HashSpec (H : Bytes → Bytes) (U : Node → Prop) (st : Store) (withDb child : Bool) (t : Node) (r : CNode × LNode × Store) : Prop :=
   r.1 = (if child then refOf H t else .hashRef (H (enc H t))) ∧
-  AbsR H r.2.2 child t r.2.1 ∧ Extends st r.2.2 ∧ StoreSound H r.2.2 ∧
+  AbsR H r.2.2 child t r.2.1 ∧ Extends st r.2.2 ∧ StoreSound H U r.2.2 ∧
   (withDb = true → Stored H r.2.2 t ∧ (child = false → r.2.2.lookup (H (enc H t)) = some (collapse H t))) ∧
   (withDb = false → r.2.2 = st)
 
@@ -283,9 +291,9 @@ theorem refOf_big {H : Bytes → Bytes} {t : Node} (hwf : WF t) (hbig : 32 ≤ (
   simp [this]
 
 theorem cacheHit_spec {H : Bytes → Bytes} {st : Store} {child : Bool} {t : Node} {l : LNode} {fl : Flag}
-    (gen limit : Nat) (withDb : Bool) (hwf : WF t) (hs : StoreSound H st)
+    (gen limit : Nat) (withDb : Bool) (hwf : WF t) (hs : StoreSound H U st)
     (hl : AbsL H st child t l) (hfl : FlagOK H st child fl t) :
-    (∀ r, cacheHit gen limit withDb fl l st = some r → HashSpec H st withDb child t r) ∧
+    (∀ r, cacheHit gen limit withDb fl l st = some r → HashSpec H U st withDb child t r) ∧
     (cacheHit gen limit withDb fl l st = none → withDb = false → fl.hash = none) := by
   unfold cacheHit
   cases hh : fl.hash with
@@ -349,16 +357,16 @@ theorem stored_value (H : Bytes → Bytes) (st : Store) (b : Bytes) : Stored H s
   intro e he; simp [storeOf] at he
 
 /-- the children of a full node, hashed left to right with the store threaded through -/
-theorem hashLs_spec (H : Bytes → Bytes) (gen limit : Nat) (withDb : Bool) (cs : List Node)
-    (ih : ∀ c ∈ cs, WF c → ∀ l st, StoreSound H st → AbsR H st true c l →
-      HashSpec H st withDb true c (hashL H gen limit withDb l false st)) :
+theorem hashLs_spec (H : Bytes → Bytes) (gen limit : Nat) (withDb : Bool) (cs : List Node) (hUcs : ∀ c ∈ cs, U c)
+    (ih : ∀ c ∈ cs, WF c → U c → ∀ l st, StoreSound H U st → AbsR H st true c l →
+      HashSpec H U st withDb true c (hashL H gen limit withDb l false st)) :
     ∀ (lcs : List LNode) (s : Nat) (st : Store), s + cs.length = 17 → cs.length = lcs.length →
       (∀ j, j < cs.length → AbsR H st true (cs[j]?.getD .nil) (lcs[j]?.getD .nil)) →
-      (∀ j, j < cs.length → SlotOK (s + j) (cs[j]?.getD .nil)) → StoreSound H st →
+      (∀ j, j < cs.length → SlotOK (s + j) (cs[j]?.getD .nil)) → StoreSound H U st →
       let r := hashLs H gen limit withDb lcs s st
       r.1 = (cs.take (16 - s)).map (refOf H) ∧ cs.length = r.2.1.length ∧
       (∀ j, j < cs.length → AbsR H r.2.2 true (cs[j]?.getD .nil) (r.2.1[j]?.getD .nil)) ∧
-      Extends st r.2.2 ∧ StoreSound H r.2.2 ∧
+      Extends st r.2.2 ∧ StoreSound H U r.2.2 ∧
       (withDb = true → ∀ j, j < cs.length → Stored H r.2.2 (cs[j]?.getD .nil)) ∧
       (withDb = false → r.2.2 = st) := by
   induction cs with
@@ -383,18 +391,18 @@ theorem hashLs_spec (H : Bytes → Bytes) (gen limit : Nat) (withDb : Bool) (cs 
         intro j hj
         have := hslots (j + 1) (by simpa using hj)
         simpa [Nat.add_assoc, Nat.add_comm 1 j] using this
-      have ihl' := ihl (fun c' hc' => ih c' (by simp [hc']))
+      have ihl' := ihl (fun c' hc' => hUcs c' (by simp [hc'])) (fun c' hc' => ih c' (by simp [hc']))
       simp only [List.length_cons] at hs17
       by_cases hs16 : s < 16
       · -- a hashed slot
         have hne16 : ¬ s = 16 := by omega
-        have hspec : HashSpec H st withDb true c (hashL H gen limit withDb l false st) := by
+        have hspec : HashSpec H U st withDb true c (hashL H gen limit withDb l false st) := by
           rcases hsl0 with hnil | hw
           · subst hnil
             rw [AbsR_nil.mp h0]
             exact ⟨by simp [hashL, refOf], AbsR_nil.mpr rfl, Extends.refl _, hs, fun _ => ⟨stored_nil H _, fun h => by cases h⟩, fun _ => rfl⟩
           · simp only [hne16, if_false] at hw
-            exact ih c (by simp) hw l st hs h0
+            exact ih c (by simp) hw (hUcs c (by simp)) l st hs h0
         obtain ⟨hr1, hr2, hr3, hr4, hr5, hr6⟩ := hspec
         have hrec := ihl' ls (s + 1) (hashL H gen limit withDb l false st).2.2 (by omega) hlen'
           (hptr _ hr3) hslr hr4
@@ -438,14 +446,14 @@ theorem hashLs_spec (H : Bytes → Bytes) (gen limit : Nat) (withDb : Bool) (cs 
 
 
 
-theorem hashL_spec {H : Bytes → Bytes} (hnc : NoColl H) (gen limit : Nat) (withDb : Bool) (t : Node) :
-    WF t → ∀ child l st, StoreSound H st → AbsR H st child t l →
-      HashSpec H st withDb child t (hashL H gen limit withDb l (!child) st) := by
+theorem hashL_spec {H : Bytes → Bytes} (hnc : NoColl H U) (hcl : ClosedU U) (gen limit : Nat) (withDb : Bool) (t : Node) :
+    WF t → U t → ∀ child l st, StoreSound H U st → AbsR H st child t l →
+      HashSpec H U st withDb child t (hashL H gen limit withDb l (!child) st) := by
   induction t using Node.induct with
   | hnil => intro h; exact absurd h not_WF_nil
   | hval b => intro h; exact absurd h (not_WF_value b)
   | hshort kk v ih =>
-    intro hwf child l st hs habs
+    intro hwf hU child l st hs habs
     rcases habs with hl | hh
     · obtain ⟨lv, fl, rfl, hv, hfl⟩ := AbsL_short.mp hl
       obtain ⟨hhit, hmiss⟩ := cacheHit_spec gen limit withDb hwf hs hl hfl
@@ -458,15 +466,15 @@ theorem hashL_spec {H : Bytes → Bytes} (hnc : NoColl H) (gen limit : Nat) (wit
         -- hashChildren
         have hkid : ∃ c : CNode × LNode × Store,
             shortKid (hexToCompact kk) lv (hashL H gen limit withDb lv false st) = c ∧
-            c.1 = collapse H (.short kk v) ∧ AbsR H c.2.2 true v c.2.1 ∧ Extends st c.2.2 ∧ StoreSound H c.2.2 ∧
+            c.1 = collapse H (.short kk v) ∧ AbsR H c.2.2 true v c.2.1 ∧ Extends st c.2.2 ∧ StoreSound H U c.2.2 ∧
             (withDb = true → Stored H c.2.2 v) ∧ (withDb = false → c.2.2 = st) := by
           rcases (WF_short_iff kk v).mp hwf with ⟨b, rfl, hkk, hb⟩ | ⟨cs, rfl, hne, hnib, hfull⟩
           · obtain rfl := AbsR_value.mp hv
             exact ⟨_, rfl, by simp [shortKid, collapse_leaf], by simp [shortKid]; exact AbsR_value.mpr rfl,
               by simp [shortKid, hashL]; exact Extends.refl _, by simp [shortKid, hashL]; exact hs,
               fun _ => stored_value H _ b, fun _ => by simp [shortKid, hashL]⟩
-          · have q : HashSpec H st withDb true (.full cs) (hashL H gen limit withDb lv false st) :=
-              ih hfull true lv st hs hv
+          · have q : HashSpec H U st withDb true (.full cs) (hashL H gen limit withDb lv false st) :=
+              ih hfull (hcl.1 _ _ hU) true lv st hs hv
             obtain ⟨q1, q2, q3, q4, q5, q6⟩ := q
             have hsk : shortKid (hexToCompact kk) lv (hashL H gen limit withDb lv false st)
                 = (.ext (hexToCompact kk) (hashL H gen limit withDb lv false st).1,
@@ -481,7 +489,7 @@ theorem hashL_spec {H : Bytes → Bytes} (hnc : NoColl H) (gen limit : Nat) (wit
             simp only [q1, if_true, collapse_ext]
         obtain ⟨c, hceq, hc1, hc2, hc3, hc4, hc5, hc6⟩ := hkid
         rw [hceq, hc1]
-        have hstep := store_step hnc hwf child withDb fl hc3 hfl hc4 hnodb
+        have hstep := store_step hnc hU hwf child withDb fl hc3 hfl hc4 hnodb
           (fun hw e he => (hc5 hw) e (by simpa [kidsStore] using he))
         simp only [] at hstep
         obtain ⟨s1, s2, s3, s4, s5, s6⟩ := hstep
@@ -497,7 +505,7 @@ theorem hashL_spec {H : Bytes → Bytes} (hnc : NoColl H) (gen limit : Nat) (wit
       simp only [hashL]
       exact ⟨hC1, Or.inr ⟨rfl, hwf, hbig, hst, hlk⟩, Extends.refl _, hs, fun _ => ⟨hst, fun _ => hlk⟩, fun _ => rfl⟩
   | hfull cs ih =>
-    intro hwf child l st hs habs
+    intro hwf hU child l st hs habs
     obtain ⟨hlen17, hslots, hcnt⟩ := (WF_full_iff cs).mp hwf
     rcases habs with hl | hh
     · obtain ⟨lcs, fl, rfl, hlen, hpt, hfl⟩ := AbsL_full.mp hl
@@ -508,9 +516,9 @@ theorem hashL_spec {H : Bytes → Bytes} (hnc : NoColl H) (gen limit : Nat) (wit
       | none =>
         simp only []
         have hnodb := hmiss hc
-        have hkids := hashLs_spec H gen limit withDb cs
-          (fun c hc hw l st hs ha => by
-            have := ih c hc hw true l st hs ha
+        have hkids := hashLs_spec H gen limit withDb cs (hcl.2 cs hU)
+          (fun c hc hw hu l st hs ha => by
+            have := ih c hc hw hu true l st hs ha
             simpa using this)
           lcs 0 st (by omega) hlen hpt (fun j hj => by simpa using hslots j (by omega)) hs
         simp only [] at hkids
@@ -530,7 +538,7 @@ theorem hashL_spec {H : Bytes → Bytes} (hnc : NoColl H) (gen limit : Nat) (wit
           simp only [Nat.sub_zero] at k1
           rw [collapse_full H cs hlen17, k1, hv]
         rw [hcol]
-        have hstep := store_step hnc hwf child withDb fl k4 hfl k5 hnodb
+        have hstep := store_step hnc hU hwf child withDb fl k4 hfl k5 hnodb
           (fun hw e he => by
             simp only [kidsStore] at he
             obtain ⟨c, hcm, hec⟩ := (mem_storeOfL_iff H cs e).mp he
